@@ -10,9 +10,24 @@ package contextualizers
 
 //@ func (*genericContextualizer).calculateCacheKey
 //@   props C11
+//@   callsites Write 3
+//@   assert at call Write#1: callarg1 == ehash.ret0[ehash.n - 1]
+//@   assert at call Write#2: len(callarg1) == 8
+//@   assert at call Write#3: callarg1 == shash.ret0[shash.n - 1]
 //@   nomaprange Write
 //@   ensures shanew.n > old(shanew.n) && ehash.n == old(ehash.n) + 1 && shash.n == old(shash.n) + 1 && shash.arg0[old(shash.n)] == sub
 //@   ensures (exists k int :: old(hw.n) <= k && k < hw.n && hw.arg0[k] == shanew.ret0[old(shanew.n)] && hw.arg1[k] == ehash.ret0[old(ehash.n)])
 //@   ensures (exists k int :: old(hw.n) <= k && k < hw.n && hw.arg0[k] == shanew.ret0[old(shanew.n)] && hw.arg1[k] == bytesOf(old(h.id)))
 //@   ensures (exists k int :: old(hw.n) <= k && k < hw.n && hw.arg0[k] == shanew.ret0[old(shanew.n)] && hw.arg1[k] == bytesOf(payload))
 //@   ensures (exists k int :: old(hw.n) <= k && k < hw.n && hw.arg0[k] == shanew.ret0[old(shanew.n)] && hw.arg1[k] == shash.ret0[old(shash.n)])
+
+// C11: "adversarially shifted across component boundaries": everything of variable length that goes
+// into a cache key digest is written through writeDelimited, i.e. preceded by its length (8 bytes,
+// little endian); calculateCacheKey itself writes only the three fixed-size components (endpoint
+// digest, ttl, subject digest). Length-prefixed concatenation is injective (pen and paper), so equal
+// digests mean equal components up to SHA-256 collisions.
+//@ func writeDelimited
+//@   props C11
+//@   logged wdel
+//@   ensures hw.n == old(hw.n) + 2 && hw.arg0[old(hw.n)] == hash && hw.arg0[old(hw.n) + 1] == hash && hw.arg1[old(hw.n) + 1] == data
+//@   ensures le64.n == old(le64.n) + 1 && le64.arg2[old(le64.n)] == len(data) && le64.arg1[old(le64.n)] == hw.arg1[old(hw.n)] && len(hw.arg1[old(hw.n)]) == 8
